@@ -33,7 +33,7 @@ def fill1_for_offset(rng, role, o):
     return bytes(f)
 
 
-def craft_p1(rng, scheme, o, key, valid=True):
+def craft_p1(rng, scheme, o, key, valid=True, flip_at=None):
     """a peer packet 1 with a digest under `key` at offset index o of the given scheme ('c' = 8-based, 's' = 772-based)"""
     p = bytearray(rng.bytes(1536))
     p[0:4] = rng.choice([bytes(4), rng.bytes(4)])
@@ -47,9 +47,18 @@ def craft_p1(rng, scheme, o, key, valid=True):
         p[772:776] = four
         off = o + 776
     d = hm(bytes(p[:off] + p[off + 32:]), key)
-    if not valid:
-        d = bytes([d[0] ^ 1]) + d[1:]
     p[off:off + 32] = d
+    if flip_at is not None:
+        p[off + flip_at] ^= 1 << rng.below(8)
+    elif not valid:
+        # exactly one bit wrong: in the first, the last, or any byte of the digest (every one of the 32 bytes
+        # must be compared), or in a byte the digest covers
+        k = rng.choice([off, off + 31, off + 30, off + rng.below(32), off + rng.below(32)])
+        if rng.chance(1, 5):
+            k = rng.choice([i for i in (rng.below(1536), rng.below(1536), 1535, 12) if not (off <= i < off + 32)] or [0])
+            if (scheme == "c" and 8 <= k < 12) or (scheme == "s" and 772 <= k < 776):
+                k = 1535 if off + 32 <= 1535 else 0
+        p[k] ^= 1 << rng.below(8)
     return bytes(p)
 
 
